@@ -185,6 +185,19 @@ def constructed(rng):
             if abs(t) * P10[k] <= M:
                 out.append("cmpall vv %s %s" % (G.fD(c, s), G.fD(t * P10[k], s + k)))
                 out.append("cmpall vv %s %s" % (G.fD(t * P10[k], s + k), G.fD(c, s)))
+    # limb-wise comparison: low limbs ordered against the high limbs, equal high limbs, all-ones / empty limbs
+    for a, b in G.limb_carry_pairs(rng, 40):
+        s = rng.randrange(0, 19)
+        for sa, sb in ((1, 1), (-1, -1), (1, -1)):
+            out.append("cmpall vv %s %s" % (G.fD(sa * a, s), G.fD(sb * b, s)))
+        k = rng.randrange(0, 19 - s)
+        if a * P10[k] <= M:
+            out.append("cmpall vv %s %s" % (G.fD(a * P10[k], s + k), G.fD(b, s)))
+    lg = G.limb_grid()
+    for a in lg:
+        for b in rng.sample(lg, 4):
+            s = rng.randrange(0, 19)
+            out.append("cmpall vv %s %s" % (G.fD(a * rng.choice((1, -1)), s), G.fD(b * rng.choice((1, -1)), s)))
     # equal values in every representation
     for _ in range(60):
         c, s = G.dec(rng)
